@@ -74,4 +74,35 @@ pub fn cob_lc_inv(s: &mut Src) -> R {
     ob!(!z.is_invertible() && z.inv().is_none(), "LcCob::inv(0)-is-none");
     Ok(())
 }
-crate::harness_table!(COB: cob_closed_eval [unwind 8], cob_open_part_eval [unwind 8], cob_lc_inv [unwind 4]);
+// C06 / C01: the canonical (Lee-type) cycles the tangle-complex builder transports through delooping and Gaussian elimination
+// (BuildElem::{deloop, eliminate}, unit build_elem) are cycles of the complex it returns: d z = 0.  Knots from a fixed list, both
+// mirrors, h in {2, 3} (t = 0), reduced and unreduced.  Sampled stand-in for the unverified glue around the verified transport formula.
+pub fn kh_canon_cycles(s: &mut Src) -> R {
+    use yui_link::Link;
+    use yui_kh::kh::KhComplex;
+    let codes: [&[[usize; 4]]; 7] = [
+        &[[1,4,2,5],[3,6,4,1],[5,2,6,3]],
+        &[[4,2,5,1],[8,6,1,5],[6,3,7,4],[2,7,3,8]],
+        &[[1,6,2,7],[3,8,4,9],[5,10,6,1],[7,2,8,3],[9,4,10,5]],
+        &[[1,4,2,5],[3,8,4,9],[5,10,6,1],[9,6,10,7],[7,2,8,3]],
+        &[[1,4,2,5],[7,10,8,11],[3,9,4,8],[9,3,10,2],[5,12,6,1],[11,6,12,7]],
+        &[[1,4,2,5],[5,10,6,11],[3,9,4,8],[9,3,10,2],[7,12,8,1],[11,6,12,7]],
+        &[[4,2,5,1],[8,4,9,3],[12,9,1,10],[10,5,11,6],[6,11,7,12],[2,8,3,7]],
+    ];
+    let which = s.small(0, 6) as usize;
+    let mirror = s.small(0, 1) == 1;
+    let h = s.small(2, 3);
+    let reduced = s.small(0, 1) == 1;
+    reach!();
+    let mut l = Link::from_pd_code(codes[which].iter().cloned());
+    if mirror { l = l.mirror(); }
+    let c = KhComplex::<i64>::new(&l, &h, &0, reduced);
+    let zs = c.canon_cycles();
+    ob!(zs.len() == if reduced { 1 } else { 2 }, "KhComplex::canon_cycles::count");
+    for z in zs.iter() {
+        ob!(!z.is_zero(), "KhComplex::canon_cycles::non-zero");
+        ob!(c.d(0, z).is_zero(), "KhComplex::canon_cycles::d.z==0");
+    }
+    Ok(())
+}
+crate::harness_table!(COB: cob_closed_eval [unwind 8], cob_open_part_eval [unwind 8], cob_lc_inv [unwind 4], kh_canon_cycles [unwind 4]);
